@@ -729,7 +729,8 @@ func init() {
 	Register(&Prop{
 		ID:    "C13",
 		Title: "Concurrent queries are free of data races, crashes and cross-talk",
-		Rule: "a case is a batch executed in a child process built with the race detector (halt_on_error): 2-8 goroutines, each with 1-4 queries from the 47 wide " +
+		Rule: "[Dimensions added in rounds p-r of the seeded-defect evaluation: a third of the batches start with a prelude of 1-4 mostly failing statements; scenario big-tables: 4100-5200 rows per query under sub queries, EXISTS, ONCE, aggregates, ASYNC.] " +
+			"a case is a batch executed in a child process built with the race detector (halt_on_error): 2-8 goroutines, each with 1-4 queries from the 47 wide " +
 			"constructs (or path selectors; a third of the queries built with PostgresEscapingDialect / IdiomaticArrays, and now and then a text the rewriters reject next to them), released together by a barrier, each list repeated 1-3 times, GOMAXPROCS in {1,2,4,16}; scenarios: separate " +
 			"documents with selector texts never seen before in the process (column names carry a per-batch nonce), separate documents with warm " +
 			"selectors, one shared document read by all goroutines (fresh or warm names), internal parallelism (PARALLEL / HASH joins, ASYNC and " +
